@@ -47,3 +47,30 @@ Theorem C15_fetch_never_panics arcs id a from until now :
                zlen vs = (u - f) / a_step a.
 Proof. exact (fetch_named_total arcs id a from until now). Qed.
 Print Assumptions C15_fetch_never_panics.
+
+(** ** updates on a handle opened on a damaged file
+    What Open accepts — whatever the bytes — has archives of the announced shape and a layout that
+    passes validation ([C15_opened_file_shape]); on archives of that shape, WHATEVER the slots
+    contain (garbage timestamps, a garbage base interval), single and batch updates at a clock of
+    the domain end in success or in the range error, never in a panic (Proofs/AnyContentsProofs.v) *)
+From WT Require Import Spec.LogSpec Spec.WfLayout Proofs.UpdateProofs Proofs.ChainProofs Proofs.ArchiveUpdateProofs Proofs.AnyContentsProofs.
+
+Theorem C15_opened_file_shape file h arcs : open_image file = Some (h, arcs) ->
+  arcs <> [] /\ shaped arcs /\ wf_layout (layout_of arcs) /\ wf_lay (layout_of arcs) /\ 1 <= h_method h <= 6.
+Proof. exact (open_image_shape file h arcs). Qed.
+Print Assumptions C15_opened_file_shape.
+
+Theorem C15_update_never_panics_on_any_contents F m xff maxret arcs id t v now :
+  1 <= m <= 6 -> arcs <> [] -> shaped arcs -> wf_lay (layout_of arcs) ->
+  id = -1 \/ 0 <= id < zlen arcs -> 0 <= t < 2^32 ->
+  0 < maxret <= now -> now + top_step (layout_of arcs) < TMAX ->
+  update_point_for_archive F m xff maxret arcs id t v now <> UPanic.
+Proof. exact (update_point_no_panic F m xff maxret arcs id t v now). Qed.
+Print Assumptions C15_update_never_panics_on_any_contents.
+
+Theorem C15_batch_update_never_panics_on_any_contents F m xff arcs pts id now :
+  1 <= m <= 6 -> shaped arcs -> wf_lay (layout_of arcs) ->
+  Forall (fun p => braw (layout_of arcs) (p_time p)) pts ->
+  exists arcs', update_points_for_archive F m xff arcs pts id now = UOk arcs'.
+Proof. exact (update_points_no_panic F m xff arcs pts id now). Qed.
+Print Assumptions C15_batch_update_never_panics_on_any_contents.
